@@ -1,6 +1,1316 @@
 (* LuaMarshalLemmas.v -- proofs about the model in LuaMarshal.v (C16). *)
 From V Require Import Base GenLuaProtected LuaMarshal.
+From Coq Require Import DecimalN DecimalZ DecimalPos DecimalFacts.
 Local Open Scope N_scope.
+
+(* ================================================================== byte strings *)
+
+Lemma beq_bytes_refl : forall a, beq_bytes a a = true.
+Proof. induction a as [|x a IH]; simpl; [reflexivity|]. rewrite N.eqb_refl, IH. reflexivity. Qed.
+
+Lemma beq_bytes_eq : forall a b, beq_bytes a b = true <-> a = b.
+Proof.
+  induction a as [|x a IH]; destruct b as [|y b]; simpl; split; intro H; try reflexivity; try discriminate.
+  - apply andb_true_iff in H. destruct H as [H1 H2]. apply N.eqb_eq in H1. apply IH in H2. subst. reflexivity.
+  - inversion H; subst. rewrite N.eqb_refl. simpl. apply beq_bytes_refl.
+Qed.
+
+Lemma beq_bytes_neq : forall a b, beq_bytes a b = false <-> a <> b.
+Proof.
+  intros a b. split; intro H.
+  - intro E. apply beq_bytes_eq in E. congruence.
+  - destruct (beq_bytes a b) eqn:E; [|reflexivity]. apply beq_bytes_eq in E. contradiction.
+Qed.
+
+Lemma bytes_cmp_eq : forall a b, bytes_cmp a b = Eq <-> a = b.
+Proof.
+  induction a as [|x a IH]; destruct b as [|y b]; simpl; split; intro H; try reflexivity; try discriminate.
+  - destruct (N.compare x y) eqn:E; try discriminate. apply N.compare_eq in E. apply IH in H. subst. reflexivity.
+  - inversion H; subst. rewrite N.compare_refl. apply IH. reflexivity.
+Qed.
+
+Lemma bytes_cmp_refl : forall a, bytes_cmp a a = Eq.
+Proof. intro a. apply bytes_cmp_eq. reflexivity. Qed.
+
+Lemma bytes_cmp_antisym : forall a b, bytes_cmp b a = CompOpp (bytes_cmp a b).
+Proof.
+  induction a as [|x a IH]; destruct b as [|y b]; simpl; try reflexivity.
+  rewrite (N.compare_antisym x y). destruct (N.compare x y); simpl; auto.
+Qed.
+
+Lemma bytes_cmp_lt_gt : forall a b, bytes_cmp a b = Lt -> bytes_cmp b a = Gt.
+Proof. intros a b H. rewrite bytes_cmp_antisym, H. reflexivity. Qed.
+
+Lemma bytes_cmp_gt_lt : forall a b, bytes_cmp a b = Gt -> bytes_cmp b a = Lt.
+Proof. intros a b H. rewrite bytes_cmp_antisym, H. reflexivity. Qed.
+
+Lemma bytes_cmp_lt_trans : forall a b c, bytes_cmp a b = Lt -> bytes_cmp b c = Lt -> bytes_cmp a c = Lt.
+Proof.
+  induction a as [|x a IH]; destruct b as [|y b]; destruct c as [|z c]; simpl; intros H1 H2; try discriminate; try reflexivity.
+  destruct (N.compare x y) eqn:E1; try discriminate.
+  - apply N.compare_eq in E1. subst y.
+    destruct (N.compare x z) eqn:E2; try discriminate; try reflexivity.
+    eapply IH; eassumption.
+  - destruct (N.compare y z) eqn:E2; try discriminate.
+    + apply N.compare_eq in E2. subst z. rewrite E1. reflexivity.
+    + assert (N.compare x z = Lt) as ->; [|reflexivity].
+      apply N.compare_lt_iff. apply N.compare_lt_iff in E1. apply N.compare_lt_iff in E2. eapply N.lt_trans; eassumption.
+Qed.
+
+(* ================================================================== std::map as sorted list *)
+
+Section SMapFacts.
+  Context {X : Type}.
+
+  (* every key of [m] is greater than [k] *)
+  Definition all_gt (k : bytes) (m : smap X) : Prop := Forall (fun kx => bytes_cmp k (fst kx) = Lt) m.
+  (* every key of [m] is smaller than [k] *)
+  Definition all_lt (k : bytes) (m : smap X) : Prop := Forall (fun kx => bytes_cmp (fst kx) k = Lt) m.
+
+  Inductive ssorted : smap X -> Prop :=
+  | ss_nil : ssorted []
+  | ss_cons : forall k x m, all_gt k m -> ssorted m -> ssorted ((k, x) :: m).
+
+  Lemma all_gt_trans : forall k k' (m : smap X), bytes_cmp k k' = Lt -> all_gt k' m -> all_gt k m.
+  Proof.
+    intros k k' m H A. unfold all_gt in *. rewrite Forall_forall in *. intros kx I.
+    eapply bytes_cmp_lt_trans; [exact H|]. apply A. exact I.
+  Qed.
+
+  Lemma smap_insert_all_gt : forall k k' (x : X) m,
+    bytes_cmp k k' = Lt -> all_gt k m -> all_gt k (smap_insert k' x m).
+  Proof.
+    intros k k' x m H A. induction m as [|[k2 x2] m IH]; simpl.
+    - constructor; [exact H|constructor].
+    - inversion A; subst. destruct (bytes_cmp k' k2).
+      + exact A.
+      + constructor; [exact H|exact A].
+      + constructor; [assumption|]. apply IH. assumption.
+  Qed.
+
+  Lemma smap_insert_sorted : forall k (x : X) m, ssorted m -> ssorted (smap_insert k x m).
+  Proof.
+    intros k x m S. induction S as [|k2 x2 m A S IH]; simpl.
+    - constructor; constructor.
+    - destruct (bytes_cmp k k2) eqn:E.
+      + constructor; assumption.
+      + constructor; [|constructor; assumption].
+        constructor; [exact E|]. eapply all_gt_trans; eassumption.
+      + constructor; [|exact IH]. apply smap_insert_all_gt; [|exact A]. apply bytes_cmp_gt_lt. exact E.
+  Qed.
+
+  Lemma smap_set_all_gt : forall k k' (x : X) m,
+    bytes_cmp k k' = Lt -> all_gt k m -> all_gt k (smap_set k' x m).
+  Proof.
+    intros k k' x m H A. induction m as [|[k2 x2] m IH]; simpl.
+    - constructor; [exact H|constructor].
+    - inversion A; subst. destruct (bytes_cmp k' k2).
+      + constructor; [exact H|assumption].
+      + constructor; [exact H|exact A].
+      + constructor; [assumption|]. apply IH. assumption.
+  Qed.
+
+  Lemma smap_set_sorted : forall k (x : X) m, ssorted m -> ssorted (smap_set k x m).
+  Proof.
+    intros k x m S. induction S as [|k2 x2 m A S IH]; simpl.
+    - constructor; constructor.
+    - destruct (bytes_cmp k k2) eqn:E.
+      + apply bytes_cmp_eq in E. subst k2. constructor; assumption.
+      + constructor; [|constructor; assumption].
+        constructor; [exact E|]. eapply all_gt_trans; eassumption.
+      + constructor; [|exact IH]. apply smap_set_all_gt; [|exact A]. apply bytes_cmp_gt_lt. exact E.
+  Qed.
+
+  (* inserting a key greater than all present keys appends *)
+  Lemma smap_insert_append : forall k (x : X) m, all_lt k m -> smap_insert k x m = m ++ [(k, x)].
+  Proof.
+    intros k x m A. induction m as [|[k2 x2] m IH]; simpl; [reflexivity|].
+    inversion A; subst. simpl in H1. rewrite (bytes_cmp_lt_gt _ _ H1). rewrite IH; [reflexivity|assumption].
+  Qed.
+
+  Lemma smap_of_list_sorted : forall (l : list (bytes * X)), ssorted (smap_of_list l).
+  Proof.
+    intro l. unfold smap_of_list.
+    assert (G : forall acc, ssorted acc -> ssorted (fold_left (fun m kx => smap_insert (fst kx) (snd kx) m) l acc)).
+    { induction l as [|[k x] l IH]; simpl; intros acc S; [exact S|]. apply IH. apply smap_insert_sorted. exact S. }
+    apply G. constructor.
+  Qed.
+
+  Lemma smap_insert_in : forall k (x : X) m kx, In kx (smap_insert k x m) -> kx = (k, x) \/ In kx m.
+  Proof.
+    intros k x m kx. induction m as [|[k2 x2] m IH]; simpl; intro H.
+    - destruct H as [H|[]]. left. symmetry. exact H.
+    - destruct (bytes_cmp k k2); simpl in H.
+      + right. exact H.
+      + destruct H as [H|H]; [left; symmetry; exact H|right; exact H].
+      + destruct H as [H|H]; [right; left; exact H|]. destruct (IH H) as [E|I]; [left; exact E|right; right; exact I].
+  Qed.
+
+  Lemma smap_of_list_in : forall (l : list (bytes * X)) kx, In kx (smap_of_list l) -> In kx l.
+  Proof.
+    intros l kx. unfold smap_of_list.
+    assert (G : forall acc, In kx (fold_left (fun m kx => smap_insert (fst kx) (snd kx) m) l acc) -> In kx acc \/ In kx l).
+    { induction l as [|[k x] l IH]; simpl; intros acc H; [left; exact H|].
+      destruct (IH _ H) as [I|I]; [|right; right; exact I].
+      destruct (smap_insert_in _ _ _ _ I) as [E|I2]; [right; left; symmetry; exact E|left; exact I2]. }
+    intro H. destruct (G [] H) as [[]|I]. exact I.
+  Qed.
+
+  Lemma smap_insert_nonempty : forall k (x : X) m, smap_insert k x m <> [].
+  Proof. intros k x [|[k2 x2] m]; simpl; [discriminate|]. destruct (bytes_cmp k k2); discriminate. Qed.
+
+  Lemma fold_insert_nonempty : forall (l : list (bytes * X)) acc, acc <> [] ->
+    fold_left (fun m kx => smap_insert (fst kx) (snd kx) m) l acc <> [].
+  Proof.
+    induction l as [|[k x] l IH]; simpl; intros acc A; [exact A|]. apply IH. apply smap_insert_nonempty.
+  Qed.
+
+  Lemma smap_of_list_nonempty : forall (l : list (bytes * X)), l <> [] -> smap_of_list l <> [].
+  Proof.
+    intros l H. unfold smap_of_list.
+    destruct l as [|[k x] l]; [contradiction|]. simpl. apply fold_insert_nonempty. discriminate.
+  Qed.
+
+  (* a sorted map is rebuilt unchanged by inserting its items in order *)
+  Lemma ssorted_all_lt_snoc : forall (m : smap X) k x, ssorted (m ++ [(k, x)]) -> all_lt k m.
+  Proof.
+    induction m as [|[k2 x2] m IH]; simpl; intros k x S; [constructor|].
+    inversion S; subst. constructor.
+    - simpl. unfold all_gt in H1. rewrite Forall_forall in H1. apply (H1 (k, x)). apply in_or_app. right. left. reflexivity.
+    - eapply IH. eassumption.
+  Qed.
+
+  Lemma ssorted_app_l : forall (a b : smap X), ssorted (a ++ b) -> ssorted a.
+  Proof.
+    induction a as [|[k x] a IH]; simpl; intros b S; [constructor|].
+    inversion S; subst. constructor.
+    - unfold all_gt in *. rewrite Forall_forall in *. intros kx I. apply H1. apply in_or_app. left. exact I.
+    - eapply IH. eassumption.
+  Qed.
+
+  Lemma fold_insert_sorted_id : forall (m acc : smap X),
+    ssorted (acc ++ m) ->
+    fold_left (fun a kx => smap_insert (fst kx) (snd kx) a) m acc = acc ++ m.
+  Proof.
+    induction m as [|[k x] m IH]; simpl; intros acc S; [rewrite List.app_nil_r; reflexivity|].
+    assert (S' : ssorted ((acc ++ [(k, x)]) ++ m)) by (rewrite <- List.app_assoc; exact S).
+    rewrite smap_insert_append.
+    - rewrite IH; [rewrite <- List.app_assoc; reflexivity|exact S'].
+    - eapply ssorted_all_lt_snoc. eapply ssorted_app_l. exact S'.
+  Qed.
+
+  Lemma smap_of_list_sorted_id : forall (m : smap X), ssorted m -> smap_of_list m = m.
+  Proof. intros m S. unfold smap_of_list. apply (fold_insert_sorted_id m []). exact S. Qed.
+
+  (* m[k] after m[k] = x, and after m[k'] = x *)
+  Lemma smap_get_set_same : forall k (x : X) m, smap_get k (smap_set k x m) = Some x.
+  Proof.
+    intros k x m. induction m as [|[k2 x2] m IH]; simpl.
+    - rewrite beq_bytes_refl. reflexivity.
+    - destruct (bytes_cmp k k2) eqn:E; simpl.
+      + rewrite beq_bytes_refl. reflexivity.
+      + rewrite beq_bytes_refl. reflexivity.
+      + destruct (beq_bytes k k2) eqn:B; [|exact IH].
+        apply beq_bytes_eq in B. subst. rewrite bytes_cmp_refl in E. discriminate.
+  Qed.
+
+  Lemma smap_get_set_other : forall k k' (x : X) m, k <> k' -> smap_get k (smap_set k' x m) = smap_get k m.
+  Proof.
+    intros k k' x m N. apply beq_bytes_neq in N. induction m as [|[k2 x2] m IH]; simpl.
+    - rewrite N. reflexivity.
+    - destruct (bytes_cmp k' k2) eqn:E; simpl.
+      + apply bytes_cmp_eq in E. subst k2. rewrite N. reflexivity.
+      + rewrite N. reflexivity.
+      + rewrite IH. reflexivity.
+  Qed.
+End SMapFacts.
+
+(* ================================================================== decimal numerals *)
+
+Lemma is_digit_range : forall c, is_digit c = true -> 48 <= c <= 57.
+Proof. intros c H. unfold is_digit in H. apply andb_true_iff in H. destruct H as [A B]. apply N.leb_le in A, B. lia. Qed.
+
+Lemma bytes_of_uint_digits : forall u, forallb is_digit (bytes_of_uint u) = true.
+Proof. induction u; simpl; auto. Qed.
+
+Lemma scan_uint_bytes_of_uint : forall u, scan_uint (bytes_of_uint u) = u.
+Proof. induction u; simpl; try reflexivity; rewrite IHu; reflexivity. Qed.
+
+Lemma forallb_impl : forall (A : Type) (p q : A -> bool) l, (forall x, p x = true -> q x = true) -> forallb p l = true -> forallb q l = true.
+Proof.
+  intros A p q l H. induction l as [|x l IH]; simpl; [reflexivity|]. intro E. apply andb_true_iff in E. destruct E as [E1 E2].
+  rewrite (H _ E1), (IH E2). reflexivity.
+Qed.
+
+Lemma digits_no_dot : forall l, forallb is_digit l = true -> existsb (fun c => c =? c_dot) l = false.
+Proof.
+  induction l as [|c l IH]; simpl; [reflexivity|]. intro H. apply andb_true_iff in H. destruct H as [H1 H2].
+  rewrite (IH H2). apply is_digit_range in H1. unfold c_dot. destruct (N.eqb_spec c 46); [lia|reflexivity].
+Qed.
+
+Lemma digit_is_integer_char : forall c, is_digit c = true -> (c =? c_minus) || is_digit c = true.
+Proof. intros c H. rewrite H. apply orb_true_r. Qed.
+
+Lemma digit_is_numeric_char : forall c, is_digit c = true -> (c =? c_dot) || (c =? c_minus) || is_digit c = true.
+Proof. intros c H. rewrite H. apply orb_true_r. Qed.
+
+Lemma is_integer_dec : forall z, is_integer (dec_of_Z z) = true.
+Proof.
+  intro z. unfold is_integer. destruct z as [|p|p]; simpl.
+  - reflexivity.
+  - eapply forallb_impl; [apply digit_is_integer_char|apply bytes_of_uint_digits].
+  - eapply forallb_impl; [apply digit_is_integer_char|apply bytes_of_uint_digits].
+Qed.
+
+Lemma is_integer_is_numeric : forall s, is_integer s = true -> is_numeric s = true.
+Proof.
+  intros s. unfold is_integer, is_numeric. apply forallb_impl. intros c H.
+  apply orb_true_iff in H. destruct H as [H|H]; rewrite H; rewrite ?orb_true_r; reflexivity.
+Qed.
+
+Lemma is_numeric_dec : forall z, is_numeric (dec_of_Z z) = true.
+Proof. intro z. apply is_integer_is_numeric. apply is_integer_dec. Qed.
+
+Lemma contains_dot_dec : forall z, contains_dot (dec_of_Z z) = false.
+Proof.
+  intro z. unfold contains_dot. destruct z as [|p|p]; simpl.
+  - reflexivity.
+  - apply digits_no_dot. apply bytes_of_uint_digits.
+  - apply digits_no_dot. apply bytes_of_uint_digits.
+Qed.
+
+Lemma dec_of_Z_nonempty : forall z, dec_of_Z z <> [].
+Proof.
+  intros [|p|p]; simpl; try discriminate.
+  pose proof (Unsigned.to_uint_nonnil p) as H. destruct (Pos.to_uint p); simpl; try discriminate. contradiction.
+Qed.
+
+Lemma bytes_of_uint_head : forall u, u <> Decimal.Nil ->
+  exists c r, bytes_of_uint u = c :: r /\ is_digit c = true.
+Proof. intros u H. destruct u; try contradiction; simpl; eexists; eexists; split; reflexivity. Qed.
+
+Lemma clamp_long_id : forall z, in_long z = true -> clamp_long z = z.
+Proof.
+  intros z H. unfold in_long in H. apply andb_true_iff in H. destruct H as [A B].
+  apply Z.leb_le in A, B. unfold clamp_long.
+  destruct (Z.ltb_spec z LONG_MIN); [lia|]. destruct (Z.ltb_spec LONG_MAX z); [lia|]. reflexivity.
+Qed.
+
+Lemma str_to_long_dec : forall z, in_long z = true -> str_to_long (dec_of_Z z) = z.
+Proof.
+  intros z H. destruct z as [|p|p].
+  - reflexivity.
+  - simpl dec_of_Z. unfold str_to_long.
+    destruct (bytes_of_uint_head (Pos.to_uint p) (Unsigned.to_uint_nonnil p)) as (c & r & E & D).
+    rewrite E. apply is_digit_range in D.
+    destruct (N.eqb_spec c c_minus) as [C|C]; [unfold c_minus in C; lia|].
+    rewrite <- E. rewrite scan_uint_bytes_of_uint.
+    pose proof (Unsigned.to_uint_nonnil p) as NN.
+    assert (V : N.of_uint (Pos.to_uint p) = N.pos p) by apply Unsigned.of_to.
+    destruct (Pos.to_uint p) eqn:U; try contradiction; rewrite V; simpl Z.of_N; apply clamp_long_id; exact H.
+  - simpl dec_of_Z. unfold str_to_long. unfold c_minus at 2. rewrite N.eqb_refl.
+    rewrite scan_uint_bytes_of_uint.
+    pose proof (Unsigned.to_uint_nonnil p) as NN.
+    assert (V : N.of_uint (Pos.to_uint p) = N.pos p) by apply Unsigned.of_to.
+    destruct (Pos.to_uint p) eqn:U; try contradiction; rewrite V; simpl; apply clamp_long_id; exact H.
+Qed.
+
+(* ================================================================== Lua tables *)
+
+#[local] Arguments LNil {F}.
+#[local] Arguments LBool {F} b.
+#[local] Arguments LNum {F} n.
+#[local] Arguments LStr {F} s.
+#[local] Arguments LTable {F} t.
+#[local] Arguments NInt {F} z.
+#[local] Arguments NFlt {F} f.
+#[local] Arguments is_lnil {F} l.
+#[local] Arguments tbl_get {F} k t.
+#[local] Arguments tbl_set {F} k v t.
+#[local] Arguments tbl_replace {F} k v t.
+#[local] Arguments tbl_remove {F} k t.
+#[local] Arguments tbl_append {F} v t.
+#[local] Arguments store_get {F} k g.
+#[local] Arguments store_set {F} k v g.
+#[local] Arguments store_remove {F} k g.
+#[local] Arguments VStr {F} s.
+#[local] Arguments VNum {F} n.
+#[local] Arguments VBool {F} b.
+#[local] Arguments VArr {F} l.
+#[local] Arguments VMap {F} kvs.
+#[local] Arguments lua_of_value {F} v.
+#[local] Arguments variant_ok {F} vr v.
+#[local] Arguments field_of {F} l k.
+#[local] Arguments DmOk {F} g.
+#[local] Arguments DmError {F} g.
+#[local] Arguments DmUndef {F}.
+
+Lemma lkey_eqb_eq : forall a b, lkey_eqb a b = true <-> a = b.
+Proof.
+  intros [x|x] [y|y]; simpl; split; intro H; try discriminate; try congruence.
+  - apply Z.eqb_eq in H. congruence.
+  - inversion H. apply Z.eqb_refl.
+  - apply beq_bytes_eq in H. congruence.
+  - inversion H. apply beq_bytes_refl.
+Qed.
+
+Lemma lkey_eqb_refl : forall a, lkey_eqb a a = true.
+Proof. intro a. apply lkey_eqb_eq. reflexivity. Qed.
+
+Section TableFacts.
+  Variable F : Type.
+
+  Lemma tbl_replace_fresh : forall k (v : lua F) t, ~ In k (map fst t) -> tbl_replace k v t = t ++ [(k, v)].
+  Proof.
+    intros k v t. induction t as [|[k2 v2] t IH]; simpl; intro N; [reflexivity|].
+    destruct (lkey_eqb k k2) eqn:E.
+    - apply lkey_eqb_eq in E. subst. exfalso. apply N. left. reflexivity.
+    - rewrite IH; [reflexivity|]. intro I. apply N. right. exact I.
+  Qed.
+
+  Lemma tbl_set_fresh : forall k (v : lua F) t, is_lnil v = false -> ~ In k (map fst t) -> tbl_set k v t = t ++ [(k, v)].
+  Proof. intros k v t NV N. unfold tbl_set. rewrite NV. apply tbl_replace_fresh. exact N. Qed.
+
+  Lemma tbl_get_fresh : forall k (t : ltable F), ~ In k (map fst t) -> tbl_get k t = LNil.
+  Proof.
+    intros k t. induction t as [|[k2 v2] t IH]; simpl; intro N; [reflexivity|].
+    destruct (lkey_eqb k k2) eqn:E.
+    - apply lkey_eqb_eq in E. subst. exfalso. apply N. left. reflexivity.
+    - apply IH. intro I. apply N. right. exact I.
+  Qed.
+
+  Lemma tbl_remove_fresh : forall k (t : ltable F), ~ In k (map fst t) -> tbl_remove k t = t.
+  Proof.
+    intros k t. induction t as [|[k2 v2] t IH]; simpl; intro N; [reflexivity|].
+    destruct (lkey_eqb k k2) eqn:E.
+    - apply lkey_eqb_eq in E. subst. exfalso. apply N. left. reflexivity.
+    - rewrite IH; [reflexivity|]. intro I. apply N. right. exact I.
+  Qed.
+
+  Lemma tbl_get_replace_same : forall k (v : lua F) t, tbl_get k (tbl_replace k v t) = v.
+  Proof.
+    intros k v t. induction t as [|[k2 v2] t IH]; simpl.
+    - rewrite lkey_eqb_refl. reflexivity.
+    - destruct (lkey_eqb k k2) eqn:E; simpl; [rewrite lkey_eqb_refl; reflexivity|]. rewrite E. exact IH.
+  Qed.
+
+  (* reading back t[k] after t[k] = v, for a key the table did not hold *)
+  Lemma tbl_get_set_fresh : forall k (v : lua F) t, ~ In k (map fst t) -> tbl_get k (tbl_set k v t) = v.
+  Proof.
+    intros k v t N. unfold tbl_set. destruct (is_lnil v) eqn:E.
+    - rewrite tbl_remove_fresh by exact N. rewrite tbl_get_fresh by exact N. destruct v; try discriminate. reflexivity.
+    - apply tbl_get_replace_same.
+  Qed.
+
+  Lemma tbl_replace_keys : forall k (v : lua F) t k', In k' (map fst (tbl_replace k v t)) -> k' = k \/ In k' (map fst t).
+  Proof.
+    intros k v t k'. induction t as [|[k2 v2] t IH]; simpl; intro H.
+    - destruct H as [H|[]]. left. symmetry. exact H.
+    - destruct (lkey_eqb k k2) eqn:E; simpl in H.
+      + destruct H as [H|H]; [left; symmetry; exact H|right; right; exact H].
+      + destruct H as [H|H]; [right; left; exact H|]. destruct (IH H) as [A|A]; [left; exact A|right; right; exact A].
+  Qed.
+
+  Lemma tbl_remove_keys : forall k (t : ltable F) k', In k' (map fst (tbl_remove k t)) -> In k' (map fst t).
+  Proof.
+    intros k t k'. induction t as [|[k2 v2] t IH]; simpl; intro H; [exact H|].
+    destruct (lkey_eqb k k2); simpl in H; [right; exact H|].
+    destruct H as [H|H]; [left; exact H|right; apply IH; exact H].
+  Qed.
+
+  Lemma tbl_set_keys : forall k (v : lua F) t k', In k' (map fst (tbl_set k v t)) -> k' = k \/ In k' (map fst t).
+  Proof.
+    intros k v t k' H. unfold tbl_set in H. destruct (is_lnil v).
+    - right. eapply tbl_remove_keys. exact H.
+    - eapply tbl_replace_keys. exact H.
+  Qed.
+End TableFacts.
+
+(* ================================================================== the round trip *)
+
+(* consecutive integer keys i, i+1, ... *)
+Fixpoint number_from {A : Type} (i : Z) (l : list A) : list (lkey * A) :=
+  match l with [] => [] | x :: r => (KInt i, x) :: number_from (i + 1)%Z r end.
+Fixpoint znumber {A : Type} (i : Z) (l : list A) : list (Z * A) :=
+  match l with [] => [] | x :: r => (i, x) :: znumber (i + 1)%Z r end.
+Fixpoint tnumber {A : Type} (i : Z) (l : list A) : list (bytes * A) :=
+  match l with [] => [] | x :: r => (dec_of_Z i, x) :: tnumber (i + 1)%Z r end.
+
+Lemma zmap_insert_append : forall (A : Type) k (x : A) m,
+  Forall (fun kx => (fst kx < k)%Z) m -> zmap_insert k x m = m ++ [(k, x)].
+Proof.
+  intros A k x m H. induction m as [|[k2 x2] m IH]; simpl; [reflexivity|].
+  inversion H; subst. simpl in H2.
+  assert (E : (k ?= k2)%Z = Gt) by (apply Z.compare_gt_iff; exact H2). rewrite E.
+  rewrite IH; [reflexivity|assumption].
+Qed.
+
+Lemma fold_zmap_number : forall (ds : list data) i acc,
+  Forall (fun kx => (fst kx < i)%Z) acc ->
+  fold_left (fun m (kd : lkey * data) => zmap_insert (key_int (fst kd)) (snd kd) m) (number_from i ds) acc
+  = acc ++ znumber i ds.
+Proof.
+  induction ds as [|d ds IH]; simpl; intros i acc H; [rewrite List.app_nil_r; reflexivity|].
+  rewrite zmap_insert_append by exact H.
+  rewrite IH.
+  - rewrite <- List.app_assoc. reflexivity.
+  - apply Forall_app. split.
+    + eapply Forall_impl; [|exact H]. intros a Ha. simpl in Ha. lia.
+    + constructor; [simpl; lia|constructor].
+Qed.
+
+Lemma fill_consecutive : forall (ds : list data) last, fill_array last (znumber (last + 1)%Z ds) = ds.
+Proof.
+  induction ds as [|d ds IH]; simpl; intro last; [reflexivity|].
+  replace (last + 1 - (last + 1))%Z with 0%Z by lia. simpl.
+  replace (last + 0 + 1)%Z with (last + 1)%Z by lia. rewrite IH. reflexivity.
+Qed.
+
+Lemma forallb_number_from_pos : forall (A : Type) (l : list A) i, (0 < i)%Z ->
+  forallb (fun kd : lkey * A => key_is_pos (fst kd)) (number_from i l) = true.
+Proof.
+  induction l as [|x l IH]; simpl; intros i H; [reflexivity|].
+  rewrite IH by lia. destruct (Z.ltb_spec 0 i); [reflexivity|lia].
+Qed.
+
+Lemma fold_text_number : forall (ds : list data) i acc,
+  fold_left (fun m (kd : lkey * data) => smap_insert (key_tostring (fst kd)) (snd kd) m) (number_from i ds) acc
+  = fold_left (fun m (kx : bytes * data) => smap_insert (fst kx) (snd kx) m) (tnumber i ds) acc.
+Proof. induction ds as [|d ds IH]; simpl; intros i acc; [reflexivity|]. apply IH. Qed.
+
+Lemma tnumber_in : forall (A : Type) (l : list A) i kx, In kx (tnumber i l) ->
+  exists j, (i <= j < i + Z.of_nat (length l))%Z /\ fst kx = dec_of_Z j.
+Proof.
+  induction l as [|x l IH]; simpl; intros i kx H; [contradiction|].
+  destruct H as [H|H].
+  - subst kx. exists i. split; [lia|reflexivity].
+  - destruct (IH _ _ H) as (j & R & E). exists j. split; [lia|exact E].
+Qed.
+
+(* "1" < "2" < ... < "9" as texts; "10" < "2" is where the text order leaves the numeric one *)
+Lemma dec_small_lt : forall i j, (1 <= i)%Z -> (i < j)%Z -> (j <= 9)%Z -> bytes_cmp (dec_of_Z i) (dec_of_Z j) = Lt.
+Proof.
+  intros i j A B C.
+  assert (Hi : In i [1; 2; 3; 4; 5; 6; 7; 8]%Z) by (simpl; lia).
+  assert (Hj : In j [2; 3; 4; 5; 6; 7; 8; 9]%Z) by (simpl; lia).
+  simpl in Hi, Hj.
+  destruct Hi as [<-|[<-|[<-|[<-|[<-|[<-|[<-|[<-|[]]]]]]]]];
+  destruct Hj as [<-|[<-|[<-|[<-|[<-|[<-|[<-|[<-|[]]]]]]]]]; first [reflexivity | exfalso; lia].
+Qed.
+
+Lemma tnumber_sorted : forall (A : Type) (l : list A) i, (1 <= i)%Z -> (i + Z.of_nat (length l) <= 10)%Z ->
+  ssorted (tnumber i l).
+Proof.
+  induction l as [|x l IH]; simpl length; simpl tnumber; intros i Hi Hl; [constructor|].
+  constructor.
+  - unfold all_gt. rewrite Forall_forall. intros kx I. destruct (tnumber_in _ _ _ _ I) as (j & R & E).
+    simpl. rewrite E. apply dec_small_lt; lia.
+  - apply IH; lia.
+Qed.
+
+Lemma map_tnumber_long : forall (A : Type) (l : list A) i, (1 <= i)%Z -> (i + Z.of_nat (length l) <= 10)%Z ->
+  map (fun kd : bytes * A => (str_to_long (fst kd), snd kd)) (tnumber i l) = znumber i l.
+Proof.
+  induction l as [|x l IH]; simpl length; simpl; intros i Hi Hl; [reflexivity|].
+  rewrite IH by lia. rewrite str_to_long_dec; [reflexivity|].
+  unfold in_long, LONG_MIN, LONG_MAX. apply andb_true_iff. split; apply Z.leb_le; lia.
+Qed.
+
+Lemma Forall2_weaken : forall (A B : Type) (P Q : A -> B -> Prop) l1 l2,
+  (forall a b, P a b -> Q a b) -> Forall2 P l1 l2 -> Forall2 Q l1 l2.
+Proof. intros A B P Q l1 l2 H E. induction E; constructor; auto. Qed.
+
+Section Roundtrip.
+  Variable F : Type.
+  Variable s2d : bytes -> F.                 (* strTo<double> *)
+  Variable l2d : Z -> F.                     (* (double) of a long *)
+  Variable d2s : F -> bytes.                 (* toStr<double> *)
+  Variable leval : store F -> bytes -> option (list (lua F)).    (* luaEval("return(<atom>);") *)
+  Variable Fst : F -> bool.                  (* doubles classified as stable *)
+
+  Notation gld := (get_lua_as_data F l2d d2s).
+  Notation gdl := (get_data_as_lua F s2d leval).
+  Notation emb := (embed F d2s).
+  Notation unamb := (unambiguous F Fst).
+
+  (* The assumed behaviour of what is outside the model (trusted, not proved):
+     1,2  the Lua VM evaluates the atoms `true` and `false` to the booleans;
+     3    a long of magnitude <= 2^53 converted to double prints (precision 16) as its decimal text;
+     4-7  a double classified stable prints to a non-empty text which, according to its shape, is read
+          back by strTo<double> to a double printing the same / is the decimal text of a long that
+          converts back to a double printing the same / is read by the Lua VM as a float printing
+          the same. *)
+  Definition oracle_ok : Prop :=
+    (forall g, leval g s_true = Some [LBool true]) /\
+    (forall g, leval g s_false = Some [LBool false]) /\
+    (forall z, (- TWO53 <= z <= TWO53)%Z -> d2s (l2d z) = dec_of_Z z) /\
+    (forall f, Fst f = true -> d2s f <> []) /\
+    (forall f, Fst f = true -> is_numeric (d2s f) = true -> contains_dot (d2s f) = true ->
+       d2s (s2d (d2s f)) = d2s f) /\
+    (forall f, Fst f = true -> is_numeric (d2s f) = true -> contains_dot (d2s f) = false ->
+       exists z, d2s f = dec_of_Z z /\ in_long z = true /\ d2s (l2d z) = dec_of_Z z) /\
+    (forall g f, Fst f = true -> is_numeric (d2s f) = false ->
+       exists f', leval g (d2s f) = Some [LNum (NFlt f')] /\ d2s f' = d2s f).
+
+  Hypothesis H_oracle : oracle_ok.
+
+  (* the inner loops of getDataAsLua and getLuaAsData as functions of their own *)
+  Definition arr_go (f : data -> mres (lua F)) :=
+    fix go (ar : list data) (acc : ltable F) : mres (lua F) :=
+      match ar with
+      | [] => MOk (LTable acc)
+      | x :: r => match f x with
+                  | MOk lx => go r (tbl_append lx acc)
+                  | MErr => MErr
+                  | MUndef => MUndef
+                  end
+      end.
+  Definition comp_go (vr : lm_variant) (f : data -> mres (lua F)) :=
+    fix go (c : smap data) (acc : ltable F) : mres (lua F) :=
+      match c with
+      | [] => MOk (LTable acc)
+      | (k, x) :: r =>
+          if key_undefined vr k then MUndef
+          else match f x with
+               | MOk lx => go r (tbl_set (key_of_compound k) lx acc)
+               | MErr => MErr
+               | MUndef => MUndef
+               end
+      end.
+  Definition conv (vr : lm_variant) :=
+    fix conv (t : list (lkey * lua F)) : list (lkey * data) :=
+      match t with
+      | [] => []
+      | (k, v) :: r => (k, gld vr v) :: conv r
+      end.
+
+  Lemma gdl_arr : forall vr g a t x r, gdl vr g (Data a t (x :: r) []) = arr_go (gdl vr g) (x :: r) [].
+  Proof. reflexivity. Qed.
+  Lemma gdl_comp : forall vr g a t ar kx c, gdl vr g (Data a t ar (kx :: c)) = comp_go vr (gdl vr g) (kx :: c) [].
+  Proof. reflexivity. Qed.
+  Lemma gdl_atom : forall vr g a t, gdl vr g (Data a t [] []) =
+    if atom_branch_taken vr a t then atom_as_lua F s2d leval g a t else MOk LNil.
+  Proof. reflexivity. Qed.
+  Lemma gld_table : forall vr t, gld vr (LTable t) = table_as_data vr (conv vr t).
+  Proof. reflexivity. Qed.
+
+  (* [d] goes to a non-nil Lua value that comes back as [d] *)
+  Definition rt_good (vr : lm_variant) (g : store F) (d : data) : Prop :=
+    exists l, gdl vr g d = MOk l /\ is_lnil l = false /\ gld vr l = d.
+
+  (* ---------------------------------------------------------------- arrays *)
+  Lemma arr_go_spec : forall vr g (ar : list data) (ls : list (lua F)),
+    Forall2 (fun d l => gdl vr g d = MOk l /\ is_lnil l = false) ar ls ->
+    forall acc, arr_go (gdl vr g) ar acc = MOk (LTable (acc ++ number_from (Z.of_nat (length acc) + 1) ls)).
+  Proof.
+    intros vr g ar ls H. induction H as [|d l ar ls [H1 H2] H IH]; intro acc; simpl.
+    - rewrite List.app_nil_r. reflexivity.
+    - rewrite H1. unfold tbl_append at 1. rewrite H2. rewrite IH.
+      rewrite <- List.app_assoc. simpl. rewrite app_length. simpl.
+      replace (Z.of_nat (length acc + 1) + 1)%Z with (Z.of_nat (length acc) + 1 + 1)%Z by lia. reflexivity.
+  Qed.
+
+  Lemma conv_number_from : forall vr (ds : list data) (ls : list (lua F)) i,
+    Forall2 (fun d l => gld vr l = d) ds ls -> conv vr (number_from i ls) = number_from i ds.
+  Proof.
+    intros vr ds ls i H. revert i. induction H as [|d l ds ls H1 H IH]; intro i; simpl; [reflexivity|].
+    rewrite H1, IH. reflexivity.
+  Qed.
+
+  Lemma table_as_data_sequence : forall vr (ds : list data),
+    ds <> [] -> (lm_keys_sorted_as_text vr = false \/ (length ds < 10)%nat) ->
+    table_as_data vr (number_from 1 ds) = Data [] INTERPRETED ds [].
+  Proof.
+    intros vr ds NE V. unfold table_as_data.
+    rewrite forallb_number_from_pos by lia.
+    destruct (lm_keys_sorted_as_text vr) eqn:T.
+    - destruct V as [V|V]; [discriminate|].
+      rewrite fold_text_number.
+      rewrite (fold_insert_sorted_id (tnumber 1 ds) []) by (simpl; apply tnumber_sorted; lia).
+      simpl app. rewrite map_tnumber_long by lia.
+      change 1%Z with (0 + 1)%Z. rewrite (fill_consecutive ds 0). reflexivity.
+    - rewrite fold_zmap_number by constructor. simpl app.
+      change 1%Z with (0 + 1)%Z. rewrite (fill_consecutive ds 0). reflexivity.
+  Qed.
+
+  Lemma rt_good_arr : forall vr g (ar : list data),
+    ar <> [] -> Forall (rt_good vr g) ar ->
+    (lm_keys_sorted_as_text vr = false \/ (length ar < 10)%nat) ->
+    rt_good vr g (Data [] INTERPRETED ar []).
+  Proof.
+    intros vr g ar NE H V.
+    assert (E : exists ls, Forall2 (fun d l => gdl vr g d = MOk l /\ is_lnil l = false /\ gld vr l = d) ar ls).
+    { clear NE V. induction H as [|d ar (l & A & B & C) H IH].
+      - exists []. constructor.
+      - destruct IH as (ls & IH). exists (l :: ls). constructor; [auto|exact IH]. }
+    destruct E as (ls & E).
+    assert (E1 : Forall2 (fun d l => gdl vr g d = MOk l /\ is_lnil l = false) ar ls)
+      by (eapply Forall2_weaken; [|exact E]; intros a b (A & B & C); auto).
+    assert (E2 : Forall2 (fun d l => gld vr l = d) ar ls)
+      by (eapply Forall2_weaken; [|exact E]; intros a b (A & B & C); auto).
+    destruct ar as [|x r]; [contradiction|].
+    exists (LTable (number_from 1 ls)). split; [|split].
+    - rewrite gdl_arr. rewrite (arr_go_spec vr g (x :: r) ls E1 []). reflexivity.
+    - reflexivity.
+    - rewrite gld_table. rewrite (conv_number_from vr (x :: r) ls 1 E2).
+      apply table_as_data_sequence; [discriminate|exact V].
+  Qed.
+
+  (* ---------------------------------------------------------------- maps *)
+  Fixpoint strkeys {A : Type} (c : list (bytes * data)) (ls : list A) : list (lkey * A) :=
+    match c, ls with
+    | (k, _) :: c', l :: ls' => (KStr k, l) :: strkeys c' ls'
+    | _, _ => []
+    end.
+
+  Lemma comp_go_spec : forall vr g (c : smap data) (ls : list (lua F)),
+    Forall2 (fun kd l => gdl vr g (snd kd) = MOk l /\ is_lnil l = false) c ls ->
+    Forall (fun kd => key_undefined vr (fst kd) = false /\ key_of_compound (fst kd) = KStr (fst kd)) c ->
+    forall acc, NoDup (map fst acc ++ map (fun kd => KStr (fst kd)) c) ->
+    comp_go vr (gdl vr g) c acc = MOk (LTable (acc ++ strkeys c ls)).
+  Proof.
+    intros vr g c ls H. induction H as [|[k d] l c ls [H1 H2] H IH]; intros K acc ND; simpl.
+    - rewrite List.app_nil_r. reflexivity.
+    - inversion K as [|? ? [K1 K2] K']; subst. simpl in K1, K2, H1. rewrite K1, H1, K2.
+      rewrite tbl_set_fresh; [|exact H2|].
+      + rewrite IH; [rewrite <- List.app_assoc; reflexivity|exact K'|].
+        rewrite map_app. simpl. rewrite <- List.app_assoc. simpl. exact ND.
+      + simpl in ND. apply NoDup_remove_2 in ND. intro I. apply ND. apply in_or_app. left. exact I.
+  Qed.
+
+  Lemma conv_strkeys : forall vr (c : smap data) (ls : list (lua F)),
+    Forall2 (fun kd l => gld vr l = snd kd) c ls ->
+    conv vr (strkeys c ls) = map (fun kd => (KStr (fst kd), snd kd)) c.
+  Proof.
+    intros vr c ls H. induction H as [|[k d] l c ls H1 H IH]; simpl; [reflexivity|].
+    simpl in H1. rewrite H1, IH. reflexivity.
+  Qed.
+
+  Lemma fold_text_strkeys : forall (c : smap data) acc,
+    fold_left (fun m (kd : lkey * data) => smap_insert (key_tostring (fst kd)) (snd kd) m)
+              (map (fun kd : bytes * data => (KStr (fst kd), snd kd)) c) acc
+    = fold_left (fun m (kx : bytes * data) => smap_insert (fst kx) (snd kx) m) c acc.
+  Proof. induction c as [|[k d] c IH]; simpl; intro acc; [reflexivity|]. apply IH. Qed.
+
+  Lemma ssorted_nodup_keys : forall (c : smap data), ssorted c -> NoDup (map (fun kd => KStr (fst kd)) c).
+  Proof.
+    intros c S. induction S as [|k x m A S IH]; simpl; constructor; [|exact IH].
+    intro I. apply in_map_iff in I. destruct I as ([k2 x2] & E & I). simpl in E. inversion E; subst k2.
+    unfold all_gt in A. rewrite Forall_forall in A. specialize (A _ I). simpl in A.
+    rewrite bytes_cmp_refl in A. discriminate.
+  Qed.
+
+  Lemma table_as_data_strmap : forall vr (c : smap data),
+    c <> [] -> ssorted c ->
+    table_as_data vr (map (fun kd => (KStr (fst kd), snd kd)) c) = Data [] INTERPRETED [] c.
+  Proof.
+    intros vr c NE S. unfold table_as_data.
+    destruct c as [|[k d] c]; [contradiction|].
+    simpl forallb. cbv iota.
+    rewrite fold_text_strkeys.
+    rewrite (fold_insert_sorted_id ((k, d) :: c) []) by exact S. reflexivity.
+  Qed.
+
+  Lemma rt_good_map : forall vr g (c : smap data),
+    c <> [] -> ssorted c ->
+    Forall (fun kd => key_undefined vr (fst kd) = false /\ key_of_compound (fst kd) = KStr (fst kd)) c ->
+    Forall (fun kd => rt_good vr g (snd kd)) c ->
+    rt_good vr g (Data [] INTERPRETED [] c).
+  Proof.
+    intros vr g c NE S K H.
+    assert (E : exists ls, Forall2 (fun kd l => gdl vr g (snd kd) = MOk l /\ is_lnil l = false /\ gld vr l = snd kd) c ls).
+    { clear NE S K. induction H as [|kd c (l & A & B & C) H IH].
+      - exists []. constructor.
+      - destruct IH as (ls & IH). exists (l :: ls). constructor; [auto|exact IH]. }
+    destruct E as (ls & E).
+    assert (E1 : Forall2 (fun kd l => gdl vr g (snd kd) = MOk l /\ is_lnil l = false) c ls)
+      by (eapply Forall2_weaken; [|exact E]; intros a b (A & B & C); auto).
+    assert (E2 : Forall2 (fun kd l => gld vr l = snd kd) c ls)
+      by (eapply Forall2_weaken; [|exact E]; intros a b (A & B & C); auto).
+    destruct c as [|kx r]; [contradiction|].
+    exists (LTable (strkeys (kx :: r) ls)). split; [|split].
+    - rewrite gdl_comp. rewrite (comp_go_spec vr g (kx :: r) ls E1 K []); [reflexivity|].
+      apply (ssorted_nodup_keys (kx :: r)). exact S.
+    - reflexivity.
+    - rewrite gld_table. rewrite (conv_strkeys vr (kx :: r) ls E2).
+      apply table_as_data_strmap; [discriminate|exact S].
+  Qed.
+
+  (* ---------------------------------------------------------------- induction on values *)
+  Section ValueInd.
+    Variable P : value F -> Prop.
+    Hypothesis HS : forall s, P (VStr s).
+    Hypothesis HN : forall n, P (VNum n).
+    Hypothesis HB : forall b, P (VBool b).
+    Hypothesis HA : forall l, Forall P l -> P (VArr l).
+    Hypothesis HM : forall kvs, Forall (fun kv => P (snd kv)) kvs -> P (VMap kvs).
+    Fixpoint value_ind' (v : value F) : P v :=
+      match v with
+      | VStr s => HS s
+      | VNum n => HN n
+      | VBool b => HB b
+      | VArr l =>
+          HA l ((fix go (l : list (value F)) : Forall P l :=
+                   match l with
+                   | [] => Forall_nil P
+                   | x :: r => Forall_cons x (value_ind' x) (go r)
+                   end) l)
+      | VMap kvs =>
+          HM kvs ((fix go (kvs : list (bytes * value F)) : Forall (fun kv => P (snd kv)) kvs :=
+                     match kvs with
+                     | [] => Forall_nil _
+                     | (k, x) :: r => Forall_cons (k, x) (value_ind' x) (go r)
+                     end) kvs)
+      end.
+  End ValueInd.
+
+  (* the nested fixes of the definitions on values, as list functions *)
+  Definition embl (kvs : list (bytes * value F)) : list (bytes * data) :=
+    map (fun kv => (fst kv, emb (snd kv))) kvs.
+
+  Lemma emb_arr : forall l, emb (VArr l) = Data [] INTERPRETED (map emb l) [].
+  Proof. reflexivity. Qed.
+
+  Lemma emb_map : forall kvs, emb (VMap kvs) = Data [] INTERPRETED [] (smap_of_list (embl kvs)).
+  Proof.
+    intro kvs. simpl. f_equal. f_equal. unfold embl.
+    induction kvs as [|[k x] kvs IH]; simpl; [reflexivity|]. rewrite IH. reflexivity.
+  Qed.
+
+  Lemma unamb_arr : forall l, unamb (VArr l) = match l with [] => false | _ => true end && forallb unamb l.
+  Proof.
+    intro l. reflexivity.
+  Qed.
+
+  Lemma unamb_map : forall kvs, unamb (VMap kvs) =
+    match kvs with [] => false | _ => true end && keys_distinct (map fst kvs) &&
+    forallb (fun kv => negb (key_numeric (fst kv)) && unamb (snd kv)) kvs.
+  Proof.
+    intro kvs. simpl. f_equal. induction kvs as [|[k x] kvs IH]; [reflexivity|]. rewrite IH. reflexivity.
+  Qed.
+
+  Lemma vok_arr : forall vr l, variant_ok vr (VArr l) =
+    (negb (lm_keys_sorted_as_text vr) || (length l <? 10)%nat) && forallb (@variant_ok F vr) l.
+  Proof.
+    intros vr l. reflexivity.
+  Qed.
+
+  Lemma vok_map : forall vr (kvs : list (bytes * value F)), variant_ok vr (VMap kvs) =
+    forallb (fun kv => negb (key_undefined vr (fst kv)) && variant_ok vr (snd kv)) kvs.
+  Proof.
+    intros vr kvs. simpl. induction kvs as [|[k x] kvs IH]; [reflexivity|]. rewrite IH. reflexivity.
+  Qed.
+
+  Lemma key_plain : forall k, key_numeric k = false -> key_of_compound k = KStr k.
+  Proof.
+    intros k H. unfold key_of_compound. destruct k as [|c k]; [reflexivity|].
+    simpl in H. destruct (is_integer (c :: k)) eqn:E; [|reflexivity].
+    apply is_integer_is_numeric in E. change (is_numeric (c :: k) = false) in H. congruence.
+  Qed.
+
+  (* ---------------------------------------------------------------- atoms *)
+  Lemma rt_good_str : forall vr g s,
+    (lm_empty_atom_is_nil vr = false \/ s <> []) -> rt_good vr g (atomV s).
+  Proof.
+    intros vr g s H. exists (LStr s). unfold atomV. rewrite gdl_atom. split; [|split; reflexivity].
+    destruct s as [|c s]; simpl; [|reflexivity].
+    destruct H as [H|H]; [rewrite H; reflexivity|contradiction].
+  Qed.
+
+  Lemma atom_branch_nonempty : forall vr a t, a <> [] -> atom_branch_taken vr a t = true.
+  Proof. intros vr [|c a] t H; [contradiction|reflexivity]. Qed.
+
+  Lemma rt_good_bool : forall vr g (b : bool), rt_good vr g (if b then atomI s_true else atomI s_false).
+  Proof.
+    destruct H_oracle as (Ht & Hf & _).
+    intros vr g [|]; [exists (LBool true)|exists (LBool false)]; unfold atomI; rewrite gdl_atom; simpl;
+      [rewrite Ht|rewrite Hf]; repeat split; reflexivity.
+  Qed.
+
+  Lemma rt_good_int : forall vr g z, in_long z = true ->
+    (lm_int_via_double vr = false \/ (- TWO53 <= z <= TWO53)%Z) ->
+    rt_good vr g (atomI (dec_of_Z z)).
+  Proof.
+    destruct H_oracle as (_ & _ & Hi & _).
+    intros vr g z L V. exists (LNum (NInt z)). unfold atomI. rewrite gdl_atom.
+    rewrite atom_branch_nonempty by apply dec_of_Z_nonempty.
+    unfold atom_as_lua. rewrite is_numeric_dec, contains_dot_dec, (str_to_long_dec z L).
+    split; [reflexivity|split; [reflexivity|]]. simpl. unfold atomI. f_equal.
+    destruct (lm_int_via_double vr) eqn:E; [|reflexivity].
+    destruct V as [V|V]; [discriminate|]. apply Hi. exact V.
+  Qed.
+
+  Lemma rt_good_flt : forall vr g f, Fst f = true -> rt_good vr g (atomI (d2s f)).
+  Proof.
+    destruct H_oracle as (_ & _ & _ & Hne & Hdot & Hint & Hexp).
+    intros vr g f S. unfold rt_good, atomI. rewrite gdl_atom.
+    rewrite atom_branch_nonempty by (apply Hne; exact S).
+    unfold atom_as_lua. destruct (is_numeric (d2s f)) eqn:N.
+    - destruct (contains_dot (d2s f)) eqn:D.
+      + exists (LNum (NFlt (s2d (d2s f)))). split; [reflexivity|split; [reflexivity|]].
+        simpl. unfold atomI. rewrite (Hdot f S N D). reflexivity.
+      + destruct (Hint f S N D) as (z & E & L & P).
+        exists (LNum (NInt (str_to_long (d2s f)))). split; [reflexivity|split; [reflexivity|]].
+        simpl. unfold atomI. f_equal. rewrite E. rewrite (str_to_long_dec z L).
+        destruct (lm_int_via_double vr); [rewrite P|]; reflexivity.
+    - destruct (Hexp g f S N) as (f' & E & P). rewrite E.
+      exists (LNum (NFlt f')). split; [reflexivity|split; [reflexivity|]].
+      simpl. unfold atomI. rewrite P. reflexivity.
+  Qed.
+
+  (* ---------------------------------------------------------------- the theorem *)
+  Lemma Forall_forallb : forall (A : Type) (p : A -> bool) l, forallb p l = true -> Forall (fun x => p x = true) l.
+  Proof. intros A p l H. apply Forall_forall. apply forallb_forall. exact H. Qed.
+
+  Lemma marshal_roundtrip_core : forall vr g v,
+    unamb v = true -> variant_ok vr v = true -> rt_good vr g (emb v).
+  Proof.
+    intros vr g v. induction v as [s|n|b|l IH|kvs IH] using value_ind'; intros U V.
+    - simpl. apply rt_good_str. simpl in V.
+      destruct (lm_empty_atom_is_nil vr); [right|left; reflexivity].
+      destruct s; [discriminate|discriminate].
+    - destruct n as [z|f]; simpl in *.
+      + apply rt_good_int; [exact U|].
+        destruct (lm_int_via_double vr); [right|left; reflexivity].
+        simpl in V. apply andb_true_iff in V. destruct V as [V1 V2]. apply Z.leb_le in V1. apply Z.leb_le in V2. unfold TWO53 in *. lia.
+      + apply rt_good_flt. exact U.
+    - simpl. apply (rt_good_bool vr g b).
+    - rewrite emb_arr. rewrite unamb_arr in U. rewrite vok_arr in V.
+      apply andb_true_iff in U. destruct U as [U1 U2]. apply andb_true_iff in V. destruct V as [V1 V2].
+      apply rt_good_arr.
+      + destruct l; [discriminate|discriminate].
+      + rewrite Forall_forall in IH. apply Forall_forall. intros d I. apply in_map_iff in I.
+        destruct I as (x & E & I). subst d. apply IH; [exact I| |].
+        * rewrite forallb_forall in U2. apply U2. exact I.
+        * rewrite forallb_forall in V2. apply V2. exact I.
+      + rewrite map_length. destruct (lm_keys_sorted_as_text vr); [right|left; reflexivity].
+        simpl in V1. apply Nat.ltb_lt in V1. exact V1.
+    - rewrite emb_map. rewrite unamb_map in U. rewrite vok_map in V.
+      apply andb_true_iff in U. destruct U as [U1 U3]. apply andb_true_iff in U1. destruct U1 as [U1 U2].
+      assert (A : forall kd, In kd (smap_of_list (embl kvs)) ->
+                (key_undefined vr (fst kd) = false /\ key_of_compound (fst kd) = KStr (fst kd)) /\ rt_good vr g (snd kd)).
+      { intros kd I. apply smap_of_list_in in I. unfold embl in I. apply in_map_iff in I.
+        destruct I as ([k x] & E & I). subst kd. simpl.
+        rewrite forallb_forall in U3, V. specialize (U3 _ I). specialize (V _ I). simpl in U3, V.
+        apply andb_true_iff in U3. destruct U3 as [U3 U4]. apply andb_true_iff in V. destruct V as [V3 V4].
+        apply negb_true_iff in U3, V3. split; [split; [exact V3|apply key_plain; exact U3]|].
+        rewrite Forall_forall in IH. apply (IH _ I); assumption. }
+      apply rt_good_map.
+      + apply smap_of_list_nonempty. destruct kvs; [discriminate|discriminate].
+      + apply smap_of_list_sorted.
+      + apply Forall_forall. intros kd I. apply A. exact I.
+      + apply Forall_forall. intros kd I. apply A. exact I.
+  Qed.
+
+  Lemma variant_ok_fixed : forall v : value F, variant_ok lm_fixed v = true.
+  Proof.
+    induction v as [s|n|b|l IH|kvs IH] using value_ind'.
+    - reflexivity.
+    - destruct n; reflexivity.
+    - reflexivity.
+    - rewrite vok_arr. simpl. apply forallb_forall. rewrite Forall_forall in IH. exact IH.
+    - rewrite vok_map. apply forallb_forall. intros [k x] I. simpl. rewrite Forall_forall in IH. apply (IH _ I).
+  Qed.
+
+  (* ---------------------------------------------------------------- literals *)
+  Lemma lua_of_value_arr : forall l : list (value F), lua_of_value (VArr l) = LTable (number_from 1 (map lua_of_value l)).
+  Proof.
+    intro l. simpl. f_equal.
+    assert (G : forall i, (fix seqt (i : Z) (l : list (value F)) {struct l} : ltable F :=
+                             match l with
+                             | [] => []
+                             | x :: r => (KInt i, lua_of_value x) :: seqt (i + 1)%Z r
+                             end) i l = number_from i (map lua_of_value l)).
+    { induction l as [|x l IH]; intro i; [reflexivity|]. rewrite IH. reflexivity. }
+    apply G.
+  Qed.
+
+  Lemma lua_of_value_map : forall kvs : list (bytes * value F),
+    lua_of_value (VMap kvs) = LTable (map (fun kv => (KStr (fst kv), lua_of_value (snd kv))) kvs).
+  Proof.
+    intro kvs. simpl. f_equal. induction kvs as [|[k x] kvs IH]; simpl; [reflexivity|]. rewrite IH. reflexivity.
+  Qed.
+
+  (* the Lua value a literal of [v] evaluates to is read by getLuaAsData as [embed v] *)
+  Lemma literal_as_data : forall vr v,
+    unamb v = true -> variant_ok vr v = true ->
+    gld vr (lua_of_value v) = emb v /\ is_lnil (lua_of_value v) = false.
+  Proof.
+    destruct H_oracle as (_ & _ & Hi & _).
+    intros vr v. induction v as [s|n|b|l IH|kvs IH] using value_ind'; intros U V.
+    - split; reflexivity.
+    - destruct n as [z|f]; simpl; split; try reflexivity.
+      unfold atomI. f_equal. destruct (lm_int_via_double vr) eqn:E; [|reflexivity].
+      simpl in V. rewrite E in V. simpl in V. apply andb_true_iff in V. destruct V as [V1 V2].
+      apply Z.leb_le in V1. apply Z.leb_le in V2. apply Hi. unfold TWO53 in *. lia.
+    - destruct b; split; reflexivity.
+    - rewrite lua_of_value_arr, emb_arr. split; [|reflexivity].
+      rewrite unamb_arr in U. rewrite vok_arr in V.
+      apply andb_true_iff in U. destruct U as [U1 U2]. apply andb_true_iff in V. destruct V as [V1 V2].
+      rewrite gld_table.
+      rewrite (conv_number_from vr (map emb l) (map lua_of_value l) 1).
+      + apply table_as_data_sequence.
+        * destruct l; [discriminate|discriminate].
+        * rewrite map_length. destruct (lm_keys_sorted_as_text vr); [right|left; reflexivity].
+          simpl in V1. apply Nat.ltb_lt in V1. exact V1.
+      + clear U1 V1. induction l as [|x l IHl]; simpl; constructor.
+        * inversion IH; subst. simpl in U2, V2. apply andb_true_iff in U2, V2. apply H1; tauto.
+        * inversion IH; subst. simpl in U2, V2. apply andb_true_iff in U2, V2. apply IHl; tauto.
+    - rewrite lua_of_value_map, emb_map. split; [|reflexivity].
+      rewrite unamb_map in U. rewrite vok_map in V.
+      apply andb_true_iff in U. destruct U as [U1 U3]. apply andb_true_iff in U1. destruct U1 as [U1 U2].
+      rewrite gld_table.
+      assert (C : conv vr (map (fun kv => (KStr (fst kv), lua_of_value (snd kv))) kvs)
+                  = map (fun kd => (KStr (fst kd), snd kd)) (embl kvs)).
+      { clear U1 U2. unfold embl. induction kvs as [|[k x] kvs IHk]; simpl; [reflexivity|].
+        inversion IH; subst. simpl in U3, V. apply andb_true_iff in U3, V.
+        destruct U3 as [U3 U4], V as [V3 V4]. apply andb_true_iff in U3, V3.
+        simpl in H1. destruct (H1 (proj2 U3) (proj2 V3)) as [E _]. rewrite E. rewrite IHk; tauto. }
+      rewrite C. unfold table_as_data.
+      destruct kvs as [|[k x] kvs]; [discriminate|].
+      simpl embl. simpl map at 1. simpl forallb. cbv iota.
+      rewrite fold_text_strkeys. reflexivity.
+  Qed.
+End Roundtrip.
+
+(* ================================================================== the oracle data_eqb decides equality *)
+
+Section DataInd.
+  Variable P : data -> Prop.
+  Hypothesis HD : forall a t ar c, Forall P ar -> Forall (fun kd => P (snd kd)) c -> P (Data a t ar c).
+  Fixpoint data_ind' (d : data) : P d :=
+    match d with
+    | Data a t ar c =>
+        HD a t ar c
+          ((fix go (l : list data) : Forall P l :=
+              match l with
+              | [] => Forall_nil P
+              | x :: r => Forall_cons x (data_ind' x) (go r)
+              end) ar)
+          ((fix go (c : smap data) : Forall (fun kd => P (snd kd)) c :=
+              match c with
+              | [] => Forall_nil _
+              | (k, x) :: r => Forall_cons (k, x) (data_ind' x) (go r)
+              end) c)
+    end.
+End DataInd.
+
+Definition arr_eqb' (f : data -> data -> bool) :=
+  fix arr_eqb (x y : list data) : bool :=
+    match x, y with
+    | [], [] => true
+    | p :: x', q :: y' => f p q && arr_eqb x' y'
+    | _, _ => false
+    end.
+Definition comp_eqb' (f : data -> data -> bool) :=
+  fix comp_eqb (x y : smap data) : bool :=
+    match x, y with
+    | [], [] => true
+    | (k, p) :: x', (l, q) :: y' => beq_bytes k l && f p q && comp_eqb x' y'
+    | _, _ => false
+    end.
+
+Lemma data_eqb_unfold : forall aa at_ ar ac ba bt br bc,
+  data_eqb (Data aa at_ ar ac) (Data ba bt br bc) =
+  beq_bytes aa ba && dtype_eqb at_ bt && arr_eqb' data_eqb ar br && comp_eqb' data_eqb ac bc.
+Proof. reflexivity. Qed.
+
+Lemma dtype_eqb_eq : forall a b, dtype_eqb a b = true <-> a = b.
+Proof. intros [|] [|]; simpl; split; intro H; congruence. Qed.
+
+Lemma data_eqb_true : forall a b, data_eqb a b = true -> a = b.
+Proof.
+  induction a as [aa at_ ar ac IHar IHac] using data_ind'. intros [ba bt br bc] H.
+  rewrite data_eqb_unfold in H.
+  apply andb_true_iff in H. destruct H as [H H4]. apply andb_true_iff in H. destruct H as [H H3].
+  apply andb_true_iff in H. destruct H as [H1 H2].
+  apply beq_bytes_eq in H1. apply dtype_eqb_eq in H2. subst.
+  assert (E3 : ar = br).
+  { clear H4. revert br H3. induction IHar as [|p x Hp Hx IH]; intros [|q y] H; simpl in H; try discriminate; [reflexivity|].
+    apply andb_true_iff in H. destruct H as [A B]. rewrite (Hp _ A), (IH _ B). reflexivity. }
+  assert (E4 : ac = bc).
+  { clear H3. revert bc H4. induction IHac as [|[k p] x Hp Hx IH]; intros [|[l q] y] H; simpl in H; try discriminate; [reflexivity|].
+    apply andb_true_iff in H. destruct H as [A C]. apply andb_true_iff in A. destruct A as [A B].
+    apply beq_bytes_eq in A. simpl in Hp. rewrite A, (Hp _ B), (IH _ C). reflexivity. }
+  subst. reflexivity.
+Qed.
+
+Lemma data_eqb_refl : forall a, data_eqb a a = true.
+Proof.
+  induction a as [aa at_ ar ac IHar IHac] using data_ind'.
+  rewrite data_eqb_unfold. rewrite beq_bytes_refl. replace (dtype_eqb at_ at_) with true by (destruct at_; reflexivity).
+  simpl andb.
+  assert (E3 : arr_eqb' data_eqb ar ar = true).
+  { induction IHar as [|p x Hp Hx IH]; simpl; [reflexivity|]. rewrite Hp, IH. reflexivity. }
+  assert (E4 : comp_eqb' data_eqb ac ac = true).
+  { induction IHac as [|[k p] x Hp Hx IH]; simpl; [reflexivity|]. simpl in Hp. rewrite beq_bytes_refl, Hp, IH. reflexivity. }
+  rewrite E3, E4. reflexivity.
+Qed.
+
+Lemma data_eqb_eq : forall a b, data_eqb a b = true <-> a = b.
+Proof. intros a b. split; [apply data_eqb_true|intros ->; apply data_eqb_refl]. Qed.
+
+(* ================================================================== setEvent *)
+
+(* the binding of [k] that a sequence of `m[k'] = x'` assignments leaves behind *)
+Fixpoint last_binding {X : Type} (k : bytes) (l : list (bytes * X)) : option X :=
+  match l with
+  | [] => None
+  | (k', x) :: r =>
+      match last_binding k r with
+      | Some y => Some y
+      | None => if beq_bytes k k' then Some x else None
+      end
+  end.
+
+Lemma fold_set_get : forall (X : Type) (ps : list (bytes * X)) c k,
+  smap_get k (fold_left (fun c kv => smap_set (fst kv) (snd kv) c) ps c) =
+  match last_binding k ps with Some x => Some x | None => smap_get k c end.
+Proof.
+  intros X ps. induction ps as [|[k1 x1] ps IH]; simpl; intros c k; [reflexivity|].
+  rewrite IH. destruct (last_binding k ps); [reflexivity|].
+  destruct (beq_bytes k k1) eqn:E.
+  - apply beq_bytes_eq in E. subst. apply smap_get_set_same.
+  - apply beq_bytes_neq in E. apply smap_get_set_other. exact E.
+Qed.
+
+(* params and namelist entries appear in the compound of _event.data: a namelist entry wins over
+   params, the last param of a name wins over earlier ones, both win over the payload's own entry *)
+Lemma set_event_merge_lookup : forall d ps nl k,
+  smap_get k (d_comp (merge_event_data d ps nl)) =
+  match last_binding k nl with
+  | Some x => Some x
+  | None => match last_binding k ps with
+            | Some x => Some x
+            | None => smap_get k (d_comp d)
+            end
+  end.
+Proof. intros [a t ar c] ps nl k. simpl. rewrite fold_set_get, fold_set_get. reflexivity. Qed.
+
+Lemma merge_keeps_members : forall d ps nl,
+  d_atom (merge_event_data d ps nl) = d_atom d /\ d_type (merge_event_data d ps nl) = d_type d /\
+  d_arr (merge_event_data d ps nl) = d_arr d.
+Proof. intros [a t ar c] ps nl. simpl. auto. Qed.
+
+Lemma merge_nothing : forall d, merge_event_data d [] [] = d.
+Proof. intros [a t ar c]. reflexivity. Qed.
+
+Section EventFacts.
+  Variable F : Type.
+  Variable s2d : bytes -> F.
+  Variable l2d : Z -> F.
+  Variable d2s : F -> bytes.
+  Variable leval : store F -> bytes -> option (list (lua F)).
+  Variable Fst : F -> bool.
+
+  Notation gld := (get_lua_as_data F l2d d2s).
+  Notation gdl := (get_data_as_lua F s2d leval).
+  Notation emb := (embed F d2s).
+  Notation unamb := (unambiguous F Fst).
+  Notation evdata := (event_data_of F s2d leval).
+
+  Definition header_keys : list lkey :=
+    [KStr s_name; KStr s_raw; KStr s_origin; KStr s_origintype; KStr s_invokeid; KStr s_sendid; KStr s_type].
+
+  Lemma set_if_nonempty_keys : forall k s (t : ltable F) k',
+    In k' (map fst (set_if_nonempty F k s t)) -> k' = KStr k \/ In k' (map fst t).
+  Proof.
+    intros k s t k' H. unfold set_if_nonempty in H. destruct s; [right; exact H|].
+    apply tbl_set_keys in H. exact H.
+  Qed.
+
+  Lemma event_header_keys : forall e k, In k (map fst (event_header F e)) -> In k header_keys.
+  Proof.
+    intros e k H. unfold event_header in H.
+    assert (T5 : forall k, In k (map fst
+              (if ev_hide_sendid e
+               then set_if_nonempty F s_invokeid (ev_invokeid e) (set_if_nonempty F s_origintype (ev_origintype e)
+                      (set_if_nonempty F s_origin (ev_origin e) (set_if_nonempty F s_raw (ev_raw e)
+                         (tbl_set (KStr s_name) (LStr (ev_name e)) []))))
+               else tbl_set (KStr s_sendid) (LStr (ev_sendid e))
+                      (set_if_nonempty F s_invokeid (ev_invokeid e) (set_if_nonempty F s_origintype (ev_origintype e)
+                         (set_if_nonempty F s_origin (ev_origin e) (set_if_nonempty F s_raw (ev_raw e)
+                            (tbl_set (KStr s_name) (LStr (ev_name e)) []))))))) ->
+              In k [KStr s_name; KStr s_raw; KStr s_origin; KStr s_origintype; KStr s_invokeid; KStr s_sendid]).
+    { intros k0 H0.
+      assert (T4 : forall k, In k (map fst (set_if_nonempty F s_invokeid (ev_invokeid e) (set_if_nonempty F s_origintype (ev_origintype e)
+                         (set_if_nonempty F s_origin (ev_origin e) (set_if_nonempty F s_raw (ev_raw e)
+                            (tbl_set (KStr s_name) (LStr (ev_name e)) [])))))) ->
+                In k [KStr s_name; KStr s_raw; KStr s_origin; KStr s_origintype; KStr s_invokeid]).
+      { intros k1 H1.
+        apply set_if_nonempty_keys in H1. destruct H1 as [->|H1]; [simpl; tauto|].
+        apply set_if_nonempty_keys in H1. destruct H1 as [->|H1]; [simpl; tauto|].
+        apply set_if_nonempty_keys in H1. destruct H1 as [->|H1]; [simpl; tauto|].
+        apply set_if_nonempty_keys in H1. destruct H1 as [->|H1]; [simpl; tauto|].
+        apply tbl_set_keys in H1. destruct H1 as [->|[]]. simpl; tauto. }
+      destruct (ev_hide_sendid e).
+      - apply T4 in H0. simpl in *. tauto.
+      - apply tbl_set_keys in H0. destruct H0 as [->|H0]; [simpl; tauto|]. apply T4 in H0. simpl in *. tauto. }
+    unfold header_keys.
+    destruct (ev_type e).
+    - apply tbl_set_keys in H. destruct H as [->|H]; [simpl; tauto|]. apply T5 in H. simpl in *. tauto.
+    - apply tbl_set_keys in H. destruct H as [->|H]; [simpl; tauto|]. apply T5 in H. simpl in *. tauto.
+    - apply tbl_set_keys in H. destruct H as [->|H]; [simpl; tauto|]. apply T5 in H. simpl in *. tauto.
+    - apply T5 in H. simpl in *. tauto.
+  Qed.
+
+  Lemma data_not_in_header : forall e, ~ In (KStr s_data) (map fst (event_header F e)).
+  Proof.
+    intros e H. apply event_header_keys in H. unfold header_keys in H. simpl in H.
+    repeat (destruct H as [H|H]; [inversion H|]). exact H.
+  Qed.
+
+  (* _event.data is getDataAsLua of the merged Data (or absent) *)
+  Lemma event_data_of_spec : forall vr g e,
+    evdata vr g e =
+    let d := merge_event_data (ev_data e) (ev_params e) (ev_namelist e) in
+    if data_absent vr d then MOk LNil else gdl vr g d.
+  Proof.
+    intros vr g e. unfold event_data_of, set_event. cbv zeta.
+    destruct (data_absent vr (merge_event_data (ev_data e) (ev_params e) (ev_namelist e))).
+    - simpl. rewrite tbl_get_fresh by apply data_not_in_header. reflexivity.
+    - destruct (gdl vr g (merge_event_data (ev_data e) (ev_params e) (ev_namelist e))); simpl; try reflexivity.
+      rewrite tbl_get_set_fresh by apply data_not_in_header. reflexivity.
+  Qed.
+
+  Hypothesis H_oracle : oracle_ok F s2d l2d d2s leval Fst.
+
+  Definition denotes (vr : lm_variant) (l : lua F) (v : value F) : Prop :=
+    gld vr l = emb v /\ is_lnil l = false.
+
+  Lemma rt_denotes : forall vr g v, unamb v = true -> variant_ok vr v = true ->
+    exists l, gdl vr g (emb v) = MOk l /\ denotes vr l v.
+  Proof.
+    intros vr g v U V. destruct (marshal_roundtrip_core F s2d l2d d2s leval Fst H_oracle vr g v U V) as (l & A & B & C).
+    exists l. split; [exact A|split; assumption].
+  Qed.
+
+  (* a value carried as the single param / namelist entry [k] arrives as _event.data.[k] *)
+  Lemma single_entry_event : forall vr g nm ty k d l ps nl,
+    key_numeric k = false -> key_undefined vr k = false ->
+    gdl vr g d = MOk l -> is_lnil l = false ->
+    (ps = [(k, d)] /\ nl = []) \/ (ps = [] /\ nl = [(k, d)]) ->
+    evdata vr g (mk_event nm ty data_default ps nl) = MOk (LTable [(KStr k, l)]).
+  Proof.
+    intros vr g nm ty k d l ps nl K1 K2 G N C.
+    rewrite event_data_of_spec. cbv zeta.
+    assert (M : merge_event_data (ev_data (mk_event nm ty data_default ps nl)) (ev_params (mk_event nm ty data_default ps nl))
+                  (ev_namelist (mk_event nm ty data_default ps nl)) = Data [] INTERPRETED [] [(k, d)]).
+    { destruct C as [[-> ->]|[-> ->]]; reflexivity. }
+    rewrite M. simpl data_absent. cbv iota.
+    change (data_absent vr (Data [] INTERPRETED [] [(k, d)])) with false.
+    rewrite gdl_comp. simpl. rewrite K2, G. rewrite (key_plain k K1).
+    unfold tbl_set. rewrite N. reflexivity.
+  Qed.
+
+  Lemma embed_not_absent : forall vr v, unamb v = true -> variant_ok vr v = true -> data_absent vr (emb v) = false.
+  Proof.
+    destruct H_oracle as (_ & _ & _ & Hne & _).
+    intros vr v U V. destruct v as [s|[z|f]|[|]|l|kvs].
+    - simpl in V. unfold data_absent. simpl. destruct s as [|c s]; [|reflexivity].
+      simpl. destruct (lm_empty_atom_is_nil vr); [discriminate|reflexivity].
+    - unfold data_absent. simpl. pose proof (dec_of_Z_nonempty z) as N. destruct (dec_of_Z z); [contradiction|reflexivity].
+    - unfold data_absent. simpl. simpl in U. pose proof (Hne f U) as N. destruct (d2s f); [contradiction|reflexivity].
+    - reflexivity.
+    - reflexivity.
+    - rewrite emb_arr. rewrite unamb_arr in U. destruct l; [discriminate|reflexivity].
+    - rewrite emb_map. rewrite unamb_map in U.
+      assert (N : smap_of_list (embl F d2s kvs) <> []).
+      { apply smap_of_list_nonempty. destruct kvs; [discriminate|discriminate]. }
+      unfold data_absent. simpl. destruct (smap_of_list (embl F d2s kvs)); [contradiction|reflexivity].
+  Qed.
+
+  Lemma key_p_ok : forall vr, key_numeric s_p = false /\ key_undefined vr s_p = false.
+  Proof. intro vr. split; [reflexivity|]. unfold key_undefined. rewrite andb_false_r. reflexivity. Qed.
+  Lemma key_q_ok : forall vr, key_numeric s_q = false /\ key_undefined vr s_q = false.
+  Proof. intro vr. split; [reflexivity|]. unfold key_undefined. rewrite andb_false_r. reflexivity. Qed.
+  Lemma key_nl_ok : forall vr, key_numeric s_nl = false /\ key_undefined vr s_nl = false.
+  Proof. intro vr. split; [reflexivity|]. unfold key_undefined. rewrite andb_false_r. reflexivity. Qed.
+
+  Lemma field_single : forall k (l : lua F), field_of (LTable [(KStr k, l)]) k = MOk l.
+  Proof. intros k l. simpl. rewrite beq_bytes_refl. reflexivity. Qed.
+
+  (* every way out reads a Lua value denoting [v] back as [embed v] *)
+  Lemma way_out_correct : forall vr g wo w v,
+    unamb v = true -> variant_ok vr v = true -> denotes vr w v ->
+    run_way_out F s2d l2d d2s leval vr g wo w = MOk (emb v).
+  Proof.
+    intros vr g wo w v U V [D1 D2].
+    destruct (rt_denotes vr g v U V) as (l & G & [L1 L2]).
+    destruct (key_q_ok vr) as [Q1 Q2].
+    destruct wo; unfold run_way_out; rewrite D1; try reflexivity.
+    - rewrite (single_entry_event vr g s_out EvExternal s_q (emb v) l [(s_q, emb v)] [] Q1 Q2 G L2) by (left; split; reflexivity).
+      unfold mbind. rewrite field_single. rewrite L1. reflexivity.
+    - rewrite (single_entry_event vr g s_out EvExternal s_q (emb v) l [(s_q, emb v)] [] Q1 Q2 G L2) by (left; split; reflexivity).
+      unfold mbind. rewrite field_single. rewrite L1. reflexivity.
+  Qed.
+
+  (* what <assign expr>, <data expr> make of the literal's text: assumption on the rendering of
+     literals and on the Lua VM *)
+  Definition literal_denotes (vr : lm_variant) (g : store F) (lit_text : bytes) (v : value F) : Prop :=
+    exists l0, gdl vr g (atomI lit_text) = MOk l0 /\ denotes vr l0 v.
+
+  Lemma way_in_correct : forall vr g wi lit_text v,
+    unamb v = true -> variant_ok vr v = true -> literal_denotes vr g lit_text v ->
+    exists w, run_way_in F s2d l2d d2s leval vr g wi lit_text (lua_of_value v) (emb v) = MOk w /\ denotes vr w v.
+  Proof.
+    intros vr g wi lit_text v U V (l0 & G0 & D0).
+    destruct (rt_denotes vr g v U V) as (l & G & [L1 L2]).
+    destruct (literal_as_data F s2d l2d d2s leval Fst H_oracle vr v U V) as [A1 A2].
+    destruct (key_p_ok vr) as [P1 P2]. destruct (key_nl_ok vr) as [N1 N2].
+    destruct wi; unfold run_way_in.
+    - exists l. split; [|split; assumption].
+      rewrite event_data_of_spec. cbv zeta. unfold mk_event. simpl ev_data. simpl ev_params. simpl ev_namelist.
+      rewrite merge_nothing. rewrite (embed_not_absent vr v U V). exact G.
+    - exists l. split; [|split; assumption].
+      rewrite A1.
+      rewrite (single_entry_event vr g s_in EvExternal s_p (emb v) l [(s_p, emb v)] [] P1 P2 G L2) by (left; split; reflexivity).
+      unfold mbind. apply field_single.
+    - exists l. split; [|split; assumption].
+      rewrite G0. unfold mbind at 1. destruct D0 as [D1 D2]. rewrite D1.
+      rewrite (single_entry_event vr g s_in EvExternal s_nl (emb v) l [] [(s_nl, emb v)] N1 N2 G L2) by (right; split; reflexivity).
+      unfold mbind. apply field_single.
+    - exists l0. split; [exact G0|exact D0].
+    - exists l0. split; [exact G0|exact D0].
+    - exists l. split; [exact G|split; assumption].
+  Qed.
+
+  (* the premise [literal_denotes] from more primitive facts: a literal text that is not made of
+     numeral characters is evaluated by the Lua VM ... *)
+  Lemma literal_denotes_by_eval : forall vr g lit_text v,
+    unamb v = true -> variant_ok vr v = true ->
+    lit_text <> [] -> is_numeric lit_text = false ->
+    leval g lit_text = Some [lua_of_value v] ->
+    literal_denotes vr g lit_text v.
+  Proof.
+    intros vr g lit_text v U V NE NN E.
+    destruct (literal_as_data F s2d l2d d2s leval Fst H_oracle vr v U V) as [A1 A2].
+    exists (lua_of_value v). split; [|split; assumption].
+    unfold atomI. rewrite gdl_atom. destruct lit_text as [|c r]; [contradiction|].
+    simpl atom_branch_taken. cbv iota. unfold atom_as_lua. rewrite NN, E. reflexivity.
+  Qed.
+
+  (* ... and the decimal text of an integer by-passes the VM (isNumeric, strTo<long>) *)
+  Lemma literal_denotes_integer : forall vr g z,
+    unamb (VNum (NInt z)) = true -> @variant_ok F vr (VNum (NInt z)) = true ->
+    literal_denotes vr g (dec_of_Z z) (VNum (NInt z)).
+  Proof.
+    intros vr g z U V.
+    destruct (marshal_roundtrip_core F s2d l2d d2s leval Fst H_oracle vr g (VNum (NInt z)) U V) as (l & A & B & C).
+    exists l. split; [exact A|split; assumption].
+  Qed.
+
+  Lemma ways_roundtrip_core : forall vr g wi wo lit_text v,
+    unamb v = true -> variant_ok vr v = true -> literal_denotes vr g lit_text v ->
+    run_ways F s2d l2d d2s leval vr g wi wo lit_text (lua_of_value v) (emb v) = MOk (emb v).
+  Proof.
+    intros vr g wi wo lit_text v U V L. unfold run_ways.
+    destruct (way_in_correct vr g wi lit_text v U V L) as (w & A & D). rewrite A. simpl.
+    apply way_out_correct; assumption.
+  Qed.
+End EventFacts.
+
+(* ================================================================== assign / init and the system variables *)
 
 (* the regenerated guard list covers every system variable the property names *)
 Lemma protected_covers_system_vars_lemma :
@@ -9,3 +1319,315 @@ Proof.
   split; [reflexivity|].
   intros s H. repeat (destruct H as [<-|H]; [vm_compute; reflexivity|]). destruct H.
 Qed.
+
+(* ... and, for the guard by exact comparison (pinned), nothing else *)
+Lemma protected_only_listed : lua_guard_prefix = false ->
+  forall loc, is_protected loc = true -> In loc lua_protected.
+Proof.
+  intros P loc H. unfold is_protected in H. rewrite P in H. apply andb_true_iff in H. destruct H as [_ H].
+  apply existsb_exists in H. destruct H as (p & I & E). apply beq_bytes_eq in E. subst. exact I.
+Qed.
+
+Lemma is_prefix_app : forall p r, is_prefix p (p ++ r) = true.
+Proof. induction p as [|x p IH]; simpl; intro r; [reflexivity|]. rewrite N.eqb_refl, IH. reflexivity. Qed.
+
+Lemma nth_byte_app : forall p c r, nth_byte (p ++ c :: r) (length p) = Some c.
+Proof. induction p as [|x p IH]; simpl; intros c r; [reflexivity|apply IH]. Qed.
+
+Lemma trim_right_app_nonspace : forall a c b, isspace c = false -> trim_right (a ++ c :: b) = a ++ c :: trim_right b.
+Proof.
+  intros a c b H. induction a as [|x a IH]; simpl.
+  - rewrite H. destruct (trim_right b); reflexivity.
+  - rewrite IH. destruct a; reflexivity.
+Qed.
+
+(* the repaired guard fires on a name followed by a character that cannot continue an identifier *)
+Lemma prefix_guard_member : forall x p c rest,
+  isspace x = false -> is_ident_char c = false -> isspace c = false ->
+  prefix_guard ((x :: p) ++ c :: rest) (x :: p) = true.
+Proof.
+  intros x p c rest HX HC HS. unfold prefix_guard, trim.
+  assert (D : drop_spaces ((x :: p) ++ c :: rest) = (x :: p) ++ c :: rest) by (simpl; rewrite HX; reflexivity).
+  rewrite D. rewrite trim_right_app_nonspace by exact HS.
+  rewrite is_prefix_app, nth_byte_app, HC. reflexivity.
+Qed.
+
+Definition is_ident_start (c : N) : bool :=
+  ((65 <=? c) && (c <=? 90)) || ((97 <=? c) && (c <=? 122)) || (c =? 95).
+Definition is_ident (s : bytes) : bool :=
+  match s with
+  | [] => false
+  | c :: r => is_ident_start c && forallb (fun c => is_ident_start c || is_digit c) r
+  end.
+
+Section AssignFacts.
+  Variable F : Type.
+  Variable s2d : bytes -> F.
+  Variable l2d : Z -> F.
+  Variable d2s : F -> bytes.
+  Variable leval : store F -> bytes -> option (list (lua F)).
+  Variable lexec : bytes -> store F -> option (store F).     (* the chunk "<location>= __tmpAssign" *)
+  Variable Fst : F -> bool.
+
+  Notation gld := (get_lua_as_data F l2d d2s).
+  Notation gdl := (get_data_as_lua F s2d leval).
+  Notation emb := (embed F d2s).
+  Notation unamb := (unambiguous F Fst).
+  Notation assign := (dm_assign F s2d leval lexec).
+  Notation init := (dm_init F s2d leval lexec).
+
+  (* a location that is exactly a system variable: error.execution, store unchanged *)
+  Lemma assign_protected_lemma : forall vr s d g, In s system_vars -> assign vr s d g = DmError g.
+  Proof.
+    intros vr s d g H.
+    repeat (destruct H as [<-|H]; [reflexivity|]). destruct H.
+  Qed.
+
+  Lemma init_protected_if_guard_first_lemma : lua_init_clears_first = false ->
+    forall vr s d g, In s system_vars -> init vr s d g = DmError g.
+  Proof.
+    intros C vr s d g H. unfold dm_init. rewrite C.
+    rewrite (proj2 protected_covers_system_vars_lemma s H). reflexivity.
+  Qed.
+
+  (* <data id="_name" .../>: init() clears the global before assign() raises the error *)
+  Lemma init_protected_refuted_lemma : lua_init_clears_first = true ->
+    forall vr, exists s d g g', In s system_vars /\ init vr s d g = DmError g' /\ store_get s g' <> store_get s g.
+  Proof.
+    intros C vr.
+    exists s_sv_name, (atomV [120]), [(s_sv_name, LStr [99])], [].
+    split; [simpl; tauto|]. split.
+    - unfold dm_init. rewrite C. reflexivity.
+    - vm_compute. discriminate.
+  Qed.
+
+  (* assumed behaviour of the Lua VM on three shapes of assignment chunk (used only by the lemmas
+     that name them as a premise) *)
+  Definition lua_sets_global : Prop :=
+    forall x g, is_ident x = true -> lexec x g = Some (store_set x (store_get s_tmpAssign g) g).
+  Definition lua_sets_field : Prop :=
+    forall root fld g t, is_ident root = true -> is_ident fld = true -> store_get root g = LTable t ->
+      lexec (root ++ c_dot :: fld) g = Some (store_set root (LTable (tbl_set (KStr fld) (store_get s_tmpAssign g) t)) g).
+  Definition lua_ignores_trailing_space : Prop :=
+    forall x g, is_ident x = true -> lexec (x ++ [c_space]) g = Some (store_set x (store_get s_tmpAssign g) g).
+
+  (* a path below a system variable is not guarded: `_event.name` is assigned *)
+  Lemma assign_below_system_var_refuted_lemma : lua_guard_prefix = false -> lua_sets_field ->
+    forall vr, exists loc d g g',
+      (exists sv fld, In sv system_vars /\ loc = sv ++ c_dot :: fld) /\
+      assign vr loc d g = DmOk g' /\ store_get s_sv_event g' <> store_get s_sv_event g.
+  Proof.
+    intros P L vr.
+    set (g := [(s_sv_event, LTable [(KStr s_name, @LStr F [101])])]).
+    set (d := atomV [104; 97; 99; 107; 101; 100]).
+    set (g1 := store_set s_tmpAssign (@LStr F [104; 97; 99; 107; 101; 100]) g).
+    exists (s_sv_event ++ c_dot :: s_name), d, g.
+    exists (store_set s_sv_event (LTable (tbl_set (KStr s_name) (store_get s_tmpAssign g1) [(KStr s_name, @LStr F [101])])) g1).
+    split; [exists s_sv_event, s_name; split; [simpl; tauto|reflexivity]|].
+    split.
+    - unfold dm_assign.
+      change (s_sv_event ++ c_dot :: s_name) with (95 :: tl (s_sv_event ++ c_dot :: s_name)). cbv iota.
+      change (95 :: tl (s_sv_event ++ c_dot :: s_name)) with (s_sv_event ++ c_dot :: s_name).
+      replace (is_protected (s_sv_event ++ c_dot :: s_name)) with false
+        by (unfold is_protected; rewrite P; vm_compute; reflexivity).
+      replace (gdl vr g d) with (MOk (@LStr F [104; 97; 99; 107; 101; 100])) by reflexivity.
+      fold g1.
+      rewrite (L s_sv_event s_name g1 [(KStr s_name, LStr [101])]); [reflexivity|reflexivity|reflexivity|reflexivity].
+    - vm_compute. discriminate.
+  Qed.
+
+  (* nor is the same name followed by a blank *)
+  Lemma assign_padded_system_var_refuted_lemma : lua_guard_prefix = false -> lua_ignores_trailing_space ->
+    forall vr, exists loc d g g',
+      (exists sv, In sv system_vars /\ loc = sv ++ [c_space]) /\
+      assign vr loc d g = DmOk g' /\ store_get s_sv_name g' <> store_get s_sv_name g.
+  Proof.
+    intros P L vr.
+    set (g := [(s_sv_name, @LStr F [99])]).
+    set (d := atomV [120]).
+    set (g1 := store_set s_tmpAssign (@LStr F [120]) g).
+    exists (s_sv_name ++ [c_space]), d, g, (store_set s_sv_name (store_get s_tmpAssign g1) g1).
+    split; [exists s_sv_name; split; [simpl; tauto|reflexivity]|].
+    split.
+    - unfold dm_assign.
+      change (s_sv_name ++ [c_space]) with (95 :: tl (s_sv_name ++ [c_space])). cbv iota.
+      change (95 :: tl (s_sv_name ++ [c_space])) with (s_sv_name ++ [c_space]).
+      replace (is_protected (s_sv_name ++ [c_space])) with false
+        by (unfold is_protected; rewrite P; vm_compute; reflexivity).
+      replace (gdl vr g d) with (MOk (@LStr F [120])) by reflexivity.
+      fold g1. rewrite (L s_sv_name g1); [reflexivity|reflexivity].
+    - vm_compute. discriminate.
+  Qed.
+
+  Lemma assign_guarded : forall vr loc d g, loc <> [] -> is_protected loc = true -> assign vr loc d g = DmError g.
+  Proof. intros vr [|c loc] d g N G; [contradiction|]. unfold dm_assign. rewrite G. reflexivity. Qed.
+
+  (* with the repaired guard, members of a system variable and padded names are refused as well *)
+  Lemma assign_below_protected_lemma : lua_guard_prefix = true ->
+    forall vr sv c rest d g, In sv system_vars -> is_ident_char c = false -> isspace c = false ->
+      assign vr (sv ++ c :: rest) d g = DmError g.
+  Proof using F s2d leval lexec.
+    intros P vr sv c rest d g H HC HS.
+    assert (G : is_protected (sv ++ c :: rest) = true).
+    { unfold is_protected. rewrite P. apply andb_true_iff. split; [exact (proj1 protected_covers_system_vars_lemma)|].
+      apply existsb_exists. exists sv. split.
+      - repeat (destruct H as [<-|H]; [vm_compute; auto 10|]). destruct H.
+      - repeat (destruct H as [<-|H]; [unfold s_sv_event, s_sv_sessionid, s_sv_name, s_sv_ioprocessors, s_sv_invokers;
+                                       apply prefix_guard_member; [reflexivity|exact HC|exact HS]|]). destruct H. }
+    apply assign_guarded; [destruct sv; discriminate|exact G].
+  Qed.
+
+  Lemma assign_padded_protected_lemma : lua_guard_prefix = true ->
+    forall vr sv d g, In sv system_vars ->
+      assign vr (sv ++ [c_space]) d g = DmError g /\ assign vr (c_space :: sv) d g = DmError g.
+  Proof.
+    intros P vr sv d g H.
+    assert (G : is_protected (sv ++ [c_space]) = true /\ is_protected (c_space :: sv) = true).
+    { repeat (destruct H as [<-|H]; [split; unfold is_protected; rewrite P; vm_compute; reflexivity|]). destruct H. }
+    destruct G as [G1 G2]. split; apply assign_guarded; try exact G1; try exact G2.
+    - destruct sv; discriminate.
+    - discriminate.
+  Qed.
+
+  Lemma store_get_remove_same : forall k (g : store F), store_get k (store_remove k g) = LNil.
+  Proof.
+    intros k g. induction g as [|[k2 v2] g IH]; simpl; [reflexivity|].
+    destruct (beq_bytes k k2) eqn:E; [exact IH|]. simpl. rewrite E. exact IH.
+  Qed.
+
+  Lemma store_get_set_same : forall k (v : lua F) g, store_get k (store_set k v g) = v.
+  Proof.
+    intros k v g. unfold store_set. destruct (is_lnil v) eqn:E.
+    - rewrite store_get_remove_same. destruct v; try discriminate. reflexivity.
+    - simpl. rewrite beq_bytes_refl. reflexivity.
+  Qed.
+
+  Lemma store_get_remove_other : forall k k' (g : store F), k <> k' -> store_get k (store_remove k' g) = store_get k g.
+  Proof.
+    intros k k' g N. induction g as [|[k2 v2] g IH]; simpl; [reflexivity|].
+    destruct (beq_bytes k' k2) eqn:E.
+    - apply beq_bytes_eq in E. subst k2. apply beq_bytes_neq in N. rewrite N. exact IH.
+    - simpl. rewrite IH. reflexivity.
+  Qed.
+
+  Lemma store_get_set_other : forall k k' (v : lua F) g, k <> k' -> store_get k (store_set k' v g) = store_get k g.
+  Proof.
+    intros k k' v g N. unfold store_set. destruct (is_lnil v).
+    - apply store_get_remove_other. exact N.
+    - simpl. pose proof N as N2. apply beq_bytes_neq in N2. rewrite N2. apply store_get_remove_other. exact N.
+  Qed.
+
+  Hypothesis H_oracle : oracle_ok F s2d l2d d2s leval Fst.
+
+  (* an ordinary variable: the assigned value is read back (evalAsData of the variable) as it went in *)
+  Lemma assign_then_read_lemma : lua_sets_global ->
+    forall vr g x v, is_ident x = true -> is_protected x = false ->
+      unamb v = true -> variant_ok vr v = true ->
+      exists g', assign vr x (emb v) g = DmOk g' /\ gld vr (store_get x g') = emb v.
+  Proof.
+    intros L vr g x v I P U V.
+    destruct (marshal_roundtrip_core F s2d l2d d2s leval Fst H_oracle vr g v U V) as (l & A & B & C).
+    exists (store_set x (store_get s_tmpAssign (store_set s_tmpAssign l g)) (store_set s_tmpAssign l g)).
+    split.
+    - unfold dm_assign. destruct x as [|c x]; [discriminate|]. rewrite P, A. rewrite (L (c :: x) _ I). reflexivity.
+    - rewrite store_get_set_same. rewrite store_get_set_same. exact C.
+  Qed.
+  (* <data id="x" expr=...>: init() of an ordinary variable *)
+  Lemma init_then_read_lemma : lua_sets_global ->
+    forall vr g x v, is_ident x = true -> is_protected x = false ->
+      unamb v = true -> variant_ok vr v = true ->
+      exists g', init vr x (emb v) g = DmOk g' /\ gld vr (store_get x g') = emb v.
+  Proof.
+    intros L vr g x v I P U V. unfold dm_init. rewrite P.
+    destruct lua_init_clears_first; apply assign_then_read_lemma; assumption.
+  Qed.
+End AssignFacts.
+
+(* ================================================================== refutations for the pinned code *)
+
+Section Refutations.
+  Variable F : Type.
+  Variable s2d : bytes -> F.
+  Variable l2d : Z -> F.
+  Variable d2s : F -> bytes.
+  Variable leval : store F -> bytes -> option (list (lua F)).
+  Variable Fst : F -> bool.
+
+  Notation gld := (get_lua_as_data F l2d d2s).
+  Notation gdl := (get_data_as_lua F s2d leval).
+  Notation emb := (embed F d2s).
+  Notation unamb := (unambiguous F Fst).
+
+  (* the empty string becomes nil *)
+  Lemma empty_string_refuted_lemma : forall vr g, lm_empty_atom_is_nil vr = true ->
+    exists v l, unamb v = true /\ gdl vr g (emb v) = MOk l /\ gld vr l <> emb v.
+  Proof.
+    intros vr g H. exists (VStr []), LNil. split; [reflexivity|]. split.
+    - simpl. rewrite H. reflexivity.
+    - simpl. discriminate.
+  Qed.
+
+  Definition ten_strings : value F :=
+    VArr [VStr [97]; VStr [98]; VStr [99]; VStr [100]; VStr [101]; VStr [102]; VStr [103]; VStr [104]; VStr [105]; VStr [106]].
+
+  (* an array of ten elements comes back with its tenth element in second place and eight nils *)
+  Lemma long_array_refuted_lemma : forall vr g, lm_keys_sorted_as_text vr = true ->
+    exists v l, unamb v = true /\ gdl vr g (emb v) = MOk l /\ gld vr l <> emb v.
+  Proof.
+    intros [a b c d] g H. simpl in H. subst b.
+    exists ten_strings.
+    exists (LTable (number_from 1 [LStr [97]; LStr [98]; LStr [99]; LStr [100]; LStr [101]; LStr [102]; LStr [103]; LStr [104]; LStr [105]; LStr [106]])).
+    split; [reflexivity|]. split.
+    - destruct a; reflexivity.
+    - vm_compute. discriminate.
+  Qed.
+
+  (* an integer beyond 2^53, given the double conversion observed on the implementation *)
+  Lemma big_integer_refuted_lemma : forall vr g, lm_int_via_double vr = true ->
+    d2s (l2d (TWO53 + 1)%Z) = dec_of_Z TWO53 ->
+    exists v l, unamb v = true /\ gdl vr g (emb v) = MOk l /\ gld vr l <> emb v.
+  Proof.
+    intros vr g H O. exists (VNum (NInt (TWO53 + 1)%Z)), (LNum (NInt (TWO53 + 1)%Z)).
+    split; [reflexivity|]. split.
+    - reflexivity.
+    - simpl. rewrite H. unfold TWO53 in *. simpl in O. rewrite O. vm_compute. discriminate.
+  Qed.
+
+  (* a map with the empty key makes getDataAsLua read an uninitialised long *)
+  Lemma empty_key_refuted_lemma : forall vr g, lm_empty_key_undefined vr = true ->
+    exists v, unamb v = true /\ gdl vr g (emb v) = MUndef.
+  Proof.
+    intros vr g H. exists (VMap [([], VBool true)]). split; [reflexivity|].
+    simpl. unfold key_undefined. rewrite H. reflexivity.
+  Qed.
+End Refutations.
+
+(* ================================================================== the hypotheses are satisfiable *)
+
+(* a toy oracle in which the "doubles" are the integers: it satisfies oracle_ok, so the theorems are
+   not vacuous *)
+Definition toy_eval (g : store Z) (s : bytes) : option (list (lua Z)) :=
+  if beq_bytes s s_true then Some [LBool true]
+  else if beq_bytes s s_false then Some [LBool false]
+  else None.
+
+Lemma toy_oracle_ok : oracle_ok Z str_to_long (fun z => z) dec_of_Z toy_eval in_long.
+Proof.
+  unfold oracle_ok. repeat split.
+  - intros f _. apply dec_of_Z_nonempty.
+  - intros f _ _ D. rewrite contains_dot_dec in D. discriminate.
+  - intros f S _ _. exists f. auto.
+  - intros g f _ N. rewrite is_numeric_dec in N. discriminate.
+Qed.
+
+(* a nested value with number-like strings: {a = "007", b = {"1.5", {c = "true", d = -7, [""] = "nil"}}} *)
+Definition example_value (F : Type) : value F :=
+  VMap [([97], VStr [48; 48; 55]);
+        ([98], VArr [VStr [49; 46; 53];
+                     VMap [([99], VStr [116; 114; 117; 101]); ([100], VNum (NInt (-7)%Z)); ([], VStr [110; 105; 108])]])].
+
+Lemma example_value_unambiguous : forall F Fst, unambiguous F Fst (example_value F) = true.
+Proof. intros. reflexivity. Qed.
+
+Lemma example_value_fixed_ok : forall F, variant_ok lm_fixed (example_value F) = true.
+Proof. intros. reflexivity. Qed.
